@@ -55,8 +55,13 @@ def cmd_verify(a):
     try:
         rc, out, err = sh(['git', 'apply', '--check', os.path.join(dst, 'patch.diff')], cwd=d) \
             if os.path.isdir(os.path.join(d, '.git')) else (None, '', '')
-        rc, out, err = sh(['patch', '-p1', '--no-backup-if-mismatch', '-i',
-                           os.path.join(dst, 'patch.diff')], cwd=d)
+        pfile = os.path.join(dst, 'patch_rebased.diff')
+        if not os.path.exists(pfile):
+            pfile = os.path.join(dst, 'patch.diff')
+        else:
+            meta['rebased'] = 'patch.diff is the change as delivered; a later fix: commit touched ' \
+                              'the same lines, patch_rebased.diff is the same change on the current tree'
+        rc, out, err = sh(['patch', '-p1', '--no-backup-if-mismatch', '-i', pfile], cwd=d)
         meta['patch_applies_to_head'] = (rc == 0)
         meta['repo_head_at_verify'] = sh(['git', '-C', '/repo', 'rev-parse', '--short',
                                           'HEAD'])[1].strip()
@@ -122,8 +127,10 @@ def cmd_regress(a):
         prop = json.load(open(mp)).get('property', name)
         d = scratch_copy(name)
         try:
-            rc, out, err = sh(['patch', '-p1', '--no-backup-if-mismatch', '-i',
-                               os.path.join(base, name, 'patch.diff')], cwd=d)
+            pfile = os.path.join(base, name, 'patch_rebased.diff')
+            if not os.path.exists(pfile):
+                pfile = os.path.join(base, name, 'patch.diff')
+            rc, out, err = sh(['patch', '-p1', '--no-backup-if-mismatch', '-i', pfile], cwd=d)
             if rc != 0:
                 print(name, 'PATCH DOES NOT APPLY')
                 missed.append(name)
